@@ -252,8 +252,32 @@ func ioWriterObs(status string, ew *codec.EncodingWriter, w *failWriter) string 
 	return fmt.Sprintf("%s written=%d accepted=%s", status, ew.Written(), hexs(w.acc))
 }
 
+// failByteWriter is a failWriter that also implements io.ByteWriter (as bytes.Buffer and
+// bufio.Writer do), with the same acceptance rule for the single byte.
+type failByteWriter struct{ *failWriter }
+
+func (w failByteWriter) WriteByte(c byte) error {
+	_, err := w.Write([]byte{c})
+	return err
+}
+
+// ioBoth runs f against a plain failing writer and against one that also implements
+// io.ByteWriter; the two observations must coincide (the second is appended only if they differ).
+func ioBoth(f func(byteWriter bool) string) string {
+	a := f(false)
+	b := f(true)
+	if a != b {
+		return a + " bytewriter:" + b
+	}
+	return a
+}
+
 // io.write <failpos|-> <short> <wop>…
-func execIOWrite(st *State, args []string) (res string) {
+func execIOWrite(st *State, args []string) string {
+	return ioBoth(func(bw bool) string { return execIOWrite1(args, bw) })
+}
+
+func execIOWrite1(args []string, byteWriter bool) (res string) {
 	w := &failWriter{failAt: ioParseFailPos(args[0])}
 	sh := args[1]
 	if strings.HasPrefix(sh, "l") {
@@ -261,7 +285,11 @@ func execIOWrite(st *State, args []string) (res string) {
 		sh = sh[1:]
 	}
 	w.cap = int(ioU64(sh))
-	ew := codec.NewEncodingWriter(w)
+	var dst io.Writer = w
+	if byteWriter {
+		dst = failByteWriter{w}
+	}
+	ew := codec.NewEncodingWriter(dst)
 	defer func() {
 		if r := recover(); r != nil {
 			res = ioWriterObs("panic", ew, w)
@@ -319,7 +347,16 @@ func execIODec(st *State, args []string) string {
 	p := &parser{toks: args[3:]}
 	t := p.ty()
 	bs := unhex(p.next())
-	rd := newSchedReader(bs, args[0], args[1], ioU64(args[2]))
+	var rd io.Reader = newSchedReader(bs, args[0], args[1], ioU64(args[2]))
+	if args[0] == "all" && args[1] == "sep" {
+		// same delivery behaviour as the schedule reader, but through the standard library
+		// reader (which also exposes Len/Size/ReadByte/Seek to whoever asks for them)
+		end := uint64(len(bs))
+		if k := ioU64(args[2]); k < end {
+			end = k
+		}
+		rd = bytes.NewReader(bs[:end])
+	}
 	a := ioDecodeRes(t, rd, uint64(len(bs)))
 	b := ioDecodeRes(t, bytes.NewReader(bs), uint64(len(bs)))
 	return a + " flat=" + b
@@ -327,6 +364,10 @@ func execIODec(st *State, args []string) string {
 
 // io.enc <failpos|-> <T…> <V…>
 func execIOEnc(st *State, args []string) string {
+	return ioBoth(func(bw bool) string { return execIOEnc1(args, bw) })
+}
+
+func execIOEnc1(args []string, byteWriter bool) string {
 	p := &parser{toks: args[1:]}
 	t := p.ty()
 	v := p.val()
@@ -335,7 +376,11 @@ func execIOEnc(st *State, args []string) string {
 		return "construct-err"
 	}
 	w := &failWriter{failAt: ioParseFailPos(args[0])}
-	ew := codec.NewEncodingWriter(w)
+	var dst io.Writer = w
+	if byteWriter {
+		dst = failByteWriter{w}
+	}
+	ew := codec.NewEncodingWriter(dst)
 	if err := vw.Serialize(ew); err != nil {
 		return ioWriterObs("err", ew, w)
 	}
@@ -503,6 +548,7 @@ func genC13(g *Gen, tier string, w *bufio.Writer) {
 				fmt.Fprintf(w, "io.dec %s fail %d %s %s\n", s, k, t, x)
 			}
 			fmt.Fprintf(w, "io.dec all with %d %s %s\n", k, t, x)
+			fmt.Fprintf(w, "io.dec all sep %d %s %s\n", k, t, x)
 			fmt.Fprintf(w, "io.dec %s sep %d %s %s\n", ioScheds[g.Intn(len(ioScheds))], k, t, x)
 			fmt.Fprintf(w, "io.dec %s with %d %s %s\n", g.ioSched(), k, t, x)
 		}
